@@ -24,6 +24,8 @@ func main() {
 		cmdTables(os.Args[2:])
 	case "unwind":
 		cmdUnwind(os.Args[2:])
+	case "jobs":
+		cmdJobs(os.Args[2:])
 	default:
 		fmt.Fprintln(os.Stderr, "unknown command", os.Args[1])
 		os.Exit(2)
@@ -122,9 +124,7 @@ func cmdTables(args []string) {
 	}
 }
 
-var unwinders = map[string]func(c *checkCtx, tier string) []oblRes{
-	"ean": unwindEAN,
-}
+var unwinders = map[string]*Unwinder{"ean": unwEAN, "qr": unwQR, "dm": unwDM}
 
 func cmdUnwind(args []string) {
 	fs := flag.NewFlagSet("unwind", flag.ExitOnError)
@@ -144,8 +144,19 @@ func cmdUnwind(args []string) {
 	bad := 0
 	for _, n := range fs.Args() {
 		t0 := time.Now()
-		rs := unwinders[n](c, *tier)
+		rs := runUnwinder(c, unwinders[n])
 		np := 0
+		kinds := map[string]int{}
+		ksec := map[string]float64{}
+		for _, r := range rs {
+			if !r.Trivial {
+				kinds[r.Kind]++
+				ksec[r.Kind] += r.Seconds
+			}
+		}
+		if os.Getenv("GOVC_TIMING") != "" {
+			fmt.Println("   non-trivial by kind:", kinds, ksec)
+		}
 		for _, r := range rs {
 			if r.Proved {
 				np++
